@@ -31,6 +31,7 @@ func (c *Case) clone() *Case {
 		t.Ins[i].V = t.Ins[i].V.clone()
 	}
 	t.Coll = append([]In(nil), c.Tx.Coll...)
+	t.RefIns = append([]In(nil), c.Tx.RefIns...)
 	t.Outs = append([]Out(nil), c.Tx.Outs...)
 	for i := range t.Outs {
 		t.Outs[i].V = t.Outs[i].V.clone()
@@ -77,6 +78,11 @@ func (c *Case) state() (*State, error) {
 		}
 	}
 	for _, in := range c.Tx.Coll {
+		if err := st.addUtxo(c.Tx.Era, in, c.UtxoMap); err != nil {
+			return nil, err
+		}
+	}
+	for _, in := range c.Tx.RefIns {
 		if err := st.addUtxo(c.Tx.Era, in, c.UtxoMap); err != nil {
 			return nil, err
 		}
@@ -163,6 +169,12 @@ type genOpts struct {
 	// consumed assets were distributed and before min-UTxO, fee and the coin
 	// remainder are settled; it must keep the reference balance of the assets
 	BeforeCoins func(rt *rapid.T, c *Case)
+	// Bystanders adds collateral inputs / collateral return / total collateral /
+	// reference inputs that must not take part in the balance
+	Bystanders bool
+	// AllowNoOutputs lets the whole remainder go to the fee (no outputs) when
+	// no assets are left to pay out
+	AllowNoOutputs bool
 }
 
 func genValidInterval(rt *rapid.T, c *Case) {
@@ -529,11 +541,49 @@ func genCase(rt *rapid.T, era Era, o genOpts) *Case {
 			tx.Outs[oi].V.Assets = append(tx.Outs[oi].V.Assets, AQ{id, part})
 		}
 	}
+	if o.Bystanders && era >= Alonzo && rapid.IntRange(0, 2).Draw(rt, "bystanders") == 0 {
+		cin := In{TxID: hash256([]byte("bystander/coll")), Ix: uint32(rapid.IntRange(0, 2).Draw(rt, "collIx")),
+			Key: payKeys[rapid.IntRange(0, 3).Draw(rt, "collKey")], V: Val{Coin: rapid.Uint64Range(20_000_000, 90_000_000).Draw(rt, "collCoin")}}
+		tx.Coll = []In{cin}
+		if era >= Babbage && rapid.Bool().Draw(rt, "collRet") {
+			ret := Out{Addr: payAddr(net, cin.Key), MapForm: rapid.Bool().Draw(rt, "collMap")}
+			ret.V.Coin = outMinCoin(era, p, ret) + p.MinUtxo + rapid.Uint64Range(0, 1_000_000).Draw(rt, "collRetExtra")
+			if ret.V.Coin > cin.V.Coin {
+				ret.V.Coin = cin.V.Coin
+			}
+			tx.CollRet = &ret
+			if rapid.Bool().Draw(rt, "totalColl") {
+				tx.TotalColl = u64p(cin.V.Coin - ret.V.Coin)
+			}
+		}
+		if era >= Babbage && rapid.Bool().Draw(rt, "refIn") {
+			rin := In{TxID: hash256([]byte("bystander/ref")), Ix: uint32(rapid.IntRange(0, 2).Draw(rt, "refIx")),
+				Key: payKeys[rapid.IntRange(0, 3).Draw(rt, "refKey")], V: Val{Coin: rapid.Uint64Range(1_000_000, 90_000_000).Draw(rt, "refCoin")}}
+			if rapid.Bool().Draw(rt, "refAssets") {
+				rin.V.Assets = []AQ{{AssetID{Policy: foreignPolicy(0), Name: "tok"}, genQty(rt, "refQty")}}
+			}
+			tx.RefIns = []In{rin}
+		}
+	}
+	assetsLeft := false
+	for _, id := range ids {
+		if cons.Assets[id].Sign() > 0 {
+			assetsLeft = true
+		}
+	}
+	if o.AllowNoOutputs && !assetsLeft && rapid.IntRange(0, 9).Draw(rt, "noOutputs") == 0 {
+		tx.Outs = nil
+		nOut = 0
+	}
 	if o.BeforeCoins != nil {
 		o.BeforeCoins(rt, c)
 	}
 	// coins
-	c.Sink = rapid.IntRange(0, nOut-1).Draw(rt, "sink")
+	if nOut > 0 {
+		c.Sink = rapid.IntRange(0, nOut-1).Draw(rt, "sink")
+	} else {
+		c.Sink = -1
+	}
 	feeUpper := p.MinFeeA*16384 + p.MinFeeB
 	prodFixed := refProduced(tx, p, ss) // outputs carry no coin yet, fee 0
 	need := new(big.Int).Set(prodFixed.Coin)
@@ -547,6 +597,17 @@ func genCase(rt *rapid.T, era Era, o genOpts) *Case {
 		deficit := new(big.Int).Sub(need, cons.Coin)
 		tx.Ins[0].V.Coin += deficit.Uint64()
 		cons = refConsumed(tx, p)
+	}
+	if nOut == 0 {
+		// everything that is not a deposit/donation goes to the fee
+		tx.Fee = 0
+		prod := refProduced(tx, p, ss)
+		rem := new(big.Int).Sub(cons.Coin, prod.Coin)
+		if rem.Sign() < 0 || !rem.IsUint64() {
+			panic("generator: negative remainder")
+		}
+		tx.Fee = rem.Uint64()
+		return c
 	}
 	// remainder goes to the sink output, fee settled by iteration
 	slack := uint64(0)
